@@ -367,7 +367,6 @@ func descSeg(s seg) string {
 // shapes of known defects, recognised on the INPUT
 
 var (
-	reTrailDotExp = regexp.MustCompile(`[0-9]\.[eE][-+]?[0-9]`)
 	reZThenNonM   = regexp.MustCompile(`[Zz][\s,]*[^MmZz\s,]`)
 )
 
@@ -389,10 +388,12 @@ func pathShapes(s string, pi *pathInfo) map[string]bool {
 	if reZThenNonM.MatchString(s) {
 		sh["K24"] = true
 	}
-	if reTrailDotExp.MatchString(s) {
-		sh["N16"] = true
-	}
 	for _, tok := range pi.numbers {
+		// "5." is a number by the SVG 1.1 BNF; the minifier reads "5" and then trips
+		// over the dot when an exponent or an arc flag follows
+		if strings.HasSuffix(tok, ".") || strings.Contains(tok, ".e") || strings.Contains(tok, ".E") {
+			sh["N16"] = true
+		}
 		f, _ := strconv.ParseFloat(tok, 64)
 		if m := math.Abs(f); m >= 1e99 || m != 0 && m <= 1e-99 {
 			sh["N15"] = true
@@ -400,24 +401,30 @@ func pathShapes(s string, pi *pathInfo) map[string]bool {
 	}
 	t := tolr{scale: pi.maxAbs}
 	for i, sg := range pi.segs {
-		if !isSmooth(sg.src) || i == 0 {
+		if i == 0 {
 			continue
 		}
 		p := pi.segs[i-1]
-		u := p.src &^ 0x20
-		// a zero-length line (explicit, implicit after M, or a degenerate curve that
-		// collapses to one) is removed from the output: the smooth command then follows
-		// whatever came before it
-		if u != 'H' && u != 'V' && u != 'Z' && u != 'A' && p.k != 'M' && t.zeroLen(p) {
+		// A zero-length line (explicit, implicit after M, or a degenerate curve that
+		// collapses to one) is removed from the output, but the minifier goes on as if
+		// it were still the predecessor: a following S/T, or a C/Q whose first control
+		// point is the current point (rewritten to S/T), then reflects the control point
+		// of whatever curve came before the removed segment.
+		if t.removable(p) && (isSmooth(sg.src) || (sg.k == 'C' || sg.k == 'Q') && t.eq(sg.v[0], sg.x0) && t.eq(sg.v[1], sg.y0)) {
 			sh["N14"] = true
 		}
 		// a degenerate curve of the same family is rewritten to a line and the stored
 		// control point forgotten
-		if smoothFamily(p.src) == smoothFamily(sg.src) && (p.k == 'C' || p.k == 'Q') && t.degenerate(p) {
+		if isSmooth(sg.src) && smoothFamily(p.src) == smoothFamily(sg.src) && (p.k == 'C' || p.k == 'Q') && t.degenerate(p) {
 			sh["K44"] = true
 		}
 	}
 	return sh
+}
+
+func (t tolr) removable(p seg) bool {
+	u := p.src &^ 0x20
+	return u != 'H' && u != 'V' && u != 'Z' && u != 'A' && p.k != 'M' && t.zeroLen(p)
 }
 
 // classifyPathDiff: root cause of a path difference, by what the input looks like at
@@ -428,21 +435,26 @@ func classifyPathDiff(d *pathDiff, s string, in *pathInfo) string {
 	norm := t.normSegs(in.segs)
 	if d.inIdx < len(norm) {
 		sg := norm[d.inIdx]
-		if isSmooth(sg.src) && (d.cat == "control-point-1" || d.cat == "control-point" || d.cat == "segment-kind") {
+		if (sg.k == 'C' || sg.k == 'Q') && (d.cat == "control-point-1" || d.cat == "control-point" || d.cat == "segment-kind") {
 			// find the raw predecessor
 			for i, r := range in.segs {
 				if i > 0 && r.x0 == sg.x0 && r.y0 == sg.y0 && r.src == sg.src && len(r.v) == len(sg.v) && sameVals(r.v, sg.v) {
 					p := in.segs[i-1]
-					u := p.src &^ 0x20
-					if u != 'H' && u != 'V' && u != 'Z' && u != 'A' && p.k != 'M' && t.zeroLen(p) && sh["N14"] {
+					if t.removable(p) && sh["N14"] {
 						return knownSig["N14"]
 					}
-					if smoothFamily(p.src) == smoothFamily(sg.src) && t.degenerate(p) && sh["K44"] {
+					if isSmooth(sg.src) && smoothFamily(p.src) == smoothFamily(sg.src) && t.degenerate(p) && sh["K44"] {
 						return knownSig["K44"]
 					}
 				}
 			}
 		}
+	}
+	if sh["N16"] {
+		return knownSig["N16"]
+	}
+	if sh["N15"] {
+		return knownSig["N15"]
 	}
 	suffix := ""
 	if d.inIdx > 0 && d.inIdx <= len(norm) && norm[d.inIdx-1].k == 'Z' {
